@@ -419,3 +419,28 @@ def standardClients (blocks : List Block) : List Client :=
      ⟨false, blocks, distinctLabels (blocks.map (·.ext)), minOf (blocks.map (·.mint)) b.mint, maxOf (blocks.map (·.maxt)) b.maxt⟩]
 
 end Thanos.StoreSpec
+
+/-! ### external labels replaced at run time (`TSDBStore.SetExtLset`, done by receive on a hashring reload) -/
+
+namespace Thanos.StoreSpec
+open Thanos.Labels
+
+/-- a TSDB store: its data and its CURRENT external labels — the store keeps no other copy of them -/
+structure TStore where
+  data : Block
+  ext : Labels
+  deriving Repr
+
+def TStore.new (db : Block) : TStore := ⟨db, db.ext⟩
+
+/-- `SetExtLset` -/
+def TStore.setExt (s : TStore) (ext : Labels) : TStore := { s with ext := ext }
+
+/-- the block the three calls see: the data under the current external labels -/
+def TStore.view (s : TStore) : Block := { s.data with ext := s.ext }
+
+def TStore.series (s : TStore) (r : Req) : Res (List Entry) := tsdbSeries s.view r
+def TStore.labelNames (s : TStore) (r : Req) : List Nat := tsdbLabelNames s.view r
+def TStore.labelValues (s : TStore) (r : Req) (l : Nat) : List Nat := tsdbLabelValues s.view r l
+
+end Thanos.StoreSpec
